@@ -329,6 +329,12 @@ M("C03", "neighbour-left-unguarded", (HLL, "                idx_left = if idx > 
 M("C06", "quotient-union-else-if", (QF, "                    }\n                    if !other.is_continuation[j] {", "                    } else if !other.is_continuation[j] {"), "R06-quotient-fifo", "independent-tests")
 M("C14", "kick-offset-hoisted", [(CF, "        for _ in 0..MAX_NUM_KICKS {\n", "        let offset = i * self.bucketsize;\n        for _ in 0..MAX_NUM_KICKS {\n"), (CF, "            let offset = i * self.bucketsize;\n            let x = offset + e;", "            let x = offset + e;")], "R01-cuckoo-home", "kick-loop")
 
+# ======================================================================================= round 7 additions
+M("C06", "cuckoo-union-skips-present", (CF, "                let i2 = i1 ^ other.hash(&f);\n                if let Err(err) = self.insert_internal(f, i1, i2, &mut log) {", "                let i2 = i1 ^ other.hash(&f);\n                if self.has_in_bucket(i1, f) && !self.has_in_bucket(i2, 0) {\n                    continue;\n                }\n                if let Err(err) = self.insert_internal(f, i1, i2, &mut log) {"), "R06-cuckoo-transfer", "union")
+M("C07", "bloom-len-clamped", (BF, "        (-m / k * (1. - x / m).ln()) as usize", "        (-m / k * (1. - x / m).ln()).min(x) as usize"), "R07-len-estimator", "len")
+M("C07", "bloom-len-without-k", (BF, "        (-m / k * (1. - x / m).ln()) as usize", "        (-m * (1. - x / m).ln()) as usize"), "R07-len-estimator", "len")
+B("C07", "bloom-len-reassociated", (BF, "        (-m / k * (1. - x / m).ln()) as usize", "        let fill = x / m;\n        (-(m * (1. - fill).ln()) / k) as usize"))
+
 
 def main():
     out = os.path.join(os.path.dirname(os.path.abspath(__file__)), "corpus.json")
